@@ -146,11 +146,15 @@ func sharingConfigs(env *engine.Env) []fixture.Doc {
 		d["provides"] = []any{"virt (= 1.0)", "${NFPM_VERIF_UNSET}", "virt2 (>= 2)", "$NFPM_VERIF_UNSET", "pkg"}
 		d["conflicts"] = []any{"virt", "${NFPM_VERIF_UNSET}", "virt2 (<< 1)", "other"}
 		d["replaces"] = []any{"virt (<< 1.0)", "pkg"}
-		d["depends"] = []any{"${NFPM_VERIF_UNSET}", "a (>= 1)", "b"}
+		d["depends"] = []any{"${NFPM_VERIF_UNSET}", "a (>= 1)", "b", "data-${NFPM_FORMAT}", "${NFPM_PACKAGER}-helper"}
+		// debconf members (a packager may want to add what they need)
+		writeScripts(t, "deb", "normal")
+		d["recommends"] = []any{"$NFPM_VERIF_UNSET", "r1", "${NFPM_VERIF_UNSET}", "r2"}
 		d["deb"] = map[string]any{"triggers": map[string]any{
 			"interest": []any{"trig-a", "trig-shared", "trig-b"}, "interest_noawait": []any{"trig-shared"},
 			"activate": []any{"trig-c", "trig-shared2", "trig-d"}, "activate_noawait": []any{"trig-shared2", "trig-c"},
-			"interest_await": []any{"trig-shared", "trig-e"}, "activate_await": []any{"trig-d", "trig-f"}}}
+			"interest_await": []any{"trig-shared", "trig-e"}, "activate_await": []any{"trig-d", "trig-f"}},
+			"scripts": map[string]any{"templates": scriptPath(t, "normal", "deb.scripts.templates"), "config": scriptPath(t, "normal", "deb.scripts.config")}}
 	}))
 	// override blocks that state lists without items (`depends: []`) next to base lists with items, a block without
 	// any setting (`rpm:` followed by nothing), a block with settings
